@@ -244,9 +244,10 @@ pub fn run_avx2(ctx: &Ctx) {
         {
             let sp = crate::props::c01::spec();
             let lat: Vec<Vec<u64>> = (0..sp.n).map(|i| sp.lattice(i)).collect();
-            let k = if quick { 3 } else { 5 };
+            // the lattice must contain limbs >= 2^51 (serial elements are only weakly reduced)
+            let k = if quick { 5 } else { 7 };
             let total = sp.count(&lat, k);
-            for idx in (0..total).step_by(if quick { 7 } else { 3 }) {
+            for idx in (0..total).step_by(if quick { 11 } else { 13 }) {
                 ctx.eval(1);
                 let la = sp.vector(&lat, k, idx);
                 let lb = sp.vector(&lat, k, (idx * 31 + 7) % total);
